@@ -33,9 +33,12 @@ def one(pair):
         compile(src, "<src>", "exec")
     except SyntaxError as e:
         return ["source-syntax", str(e)[:100]]
+    except (MemoryError, RecursionError, ValueError) as e:
+        return ["source-syntax", type(e).__name__]          # the script itself is beyond this interpreter's parser limits
     try:
         compile(text, "<conv>", "eval")
-    except (SyntaxError, ValueError) as e:
+    except (SyntaxError, ValueError, MemoryError) as e:
+        # MemoryError: the parser stack of CPython 3.8 overflows at about 100 nested brackets
         return ["text-syntax", (type(e).__name__ + ": " + str(e))[:160]]
     except RecursionError:
         return ["compile-recursion", ""]
